@@ -23,6 +23,17 @@ int __real__aes_self_tests(void) __attribute__((weak));
 int __real__sha_self_tests(void) __attribute__((weak));
 int __wrap__aes_self_tests(void);
 int __wrap__sha_self_tests(void);
+int generic_isal_self_tests(void); // fips/self_tests_generic.c compiled with shimmed atomics (generic_shim.h)
+void generic_shim_point(volatile void *addr, int kind);
+}
+static volatile uint32_t *g_generic_status = nullptr;
+static void (*g_generic_hook)(int kind) = nullptr;
+extern "C" void generic_shim_point(volatile void *addr, int kind)
+{
+        if (addr)
+                g_generic_status = (volatile uint32_t *) addr;
+        if (g_generic_hook)
+                g_generic_hook(kind);
 }
 
 enum { ST_OK = 0, ST_FAIL = 1, ST_NOT_DONE = 2, ST_RUNNING = 3 };
@@ -306,6 +317,7 @@ struct FipsRaceSim : Sim {
                 p.cfg["policy"] = (int) g.below(3); // 0 uniform, 1 pct, 2 uniform with bursts
                 p.cfg["yields"] = (int) g.below(5);
                 p.cfg["prio_seed"] = (int64_t) g.below(1 << 30);
+                p.cfg["impl"] = g.chance(1, 4) ? 1 : 0; // 0: asm (x86_64 library), 1: self_tests_generic.c (C11 atomics variant)
                 for (int i = 0; i < n; i++) {
                         p.cfg[strfmt("t%d_kind", i)] = (int64_t) g.below(8);
                         p.cfg[strfmt("t%d_late", i)] = g.chance(1, 5) ? 1 : 0;
@@ -347,6 +359,8 @@ struct FipsRaceSim : Sim {
 
         int do_call(int t, int kind)
         {
+                if (kind < 0)
+                        return generic_isal_self_tests();
                 TaskArgs &a = targs[t];
                 for (int i = 0; i < 32; i++) {
                         a.key[i] = (uint8_t) (i * 7 + t);
@@ -370,6 +384,17 @@ struct FipsRaceSim : Sim {
                 int verdict = (int) p.get("verdict");
                 bool real = p.get("real") != 0;
                 int policy = (int) p.get("policy");
+                bool generic = p.get("impl") == 1;
+                // the generic variant keeps its status in a function-local static; its address is learnt from the first shimmed access
+                if (generic && !g_generic_status) {
+                        g_st.reset();
+                        g_st.inject = true;
+                        generic_isal_self_tests();
+                }
+                if (generic && g_generic_status)
+                        *g_generic_status = ST_NOT_DONE;
+                volatile uint32_t *const stp = generic ? g_generic_status : g_status;
+#define g_status stp
                 evs.clear();
                 uint64_t seq = 0;
                 sched.reset();
@@ -399,6 +424,12 @@ struct FipsRaceSim : Sim {
                         last_was_spin = (site == site_spin);
                         self->sched.yield((uint64_t) (site == site_fast ? 1 : site == site_cas ? 2 : site == site_spin ? 3 : site == site_final ? 4 : 5));
                 };
+                g_generic_hook = [](int kind) {
+                        if (self->sched.current() < 0)
+                                return;
+                        last_was_spin = (kind == 4);
+                        self->sched.yield(0x60 + (uint64_t) kind);
+                };
                 (void) spin_flag;
                 *g_status = ST_NOT_DONE;
                 arm_interposers(true);
@@ -406,7 +437,7 @@ struct FipsRaceSim : Sim {
                 std::vector<bool> late(n);
                 std::vector<int> kinds(n), ncalls(n);
                 for (int i = 0; i < n; i++) {
-                        kinds[i] = (int) (p.get(strfmt("t%d_kind", i).c_str()) % 8);
+                        kinds[i] = generic ? -1 : (int) (p.get(strfmt("t%d_kind", i).c_str()) % 8);
                         late[i] = p.get(strfmt("t%d_late", i).c_str()) != 0;
                         ncalls[i] = p.get(strfmt("t%d_twice", i).c_str()) ? 2 : 1;
                         sched.spawn([this, i, &kinds, &ncalls, &rcs, &log]() {
@@ -501,7 +532,7 @@ struct FipsRaceSim : Sim {
                                         sh = mix64(sh, sched.task(i).done ? 0xd0e : sched.task(i).last_point + 1);
                                 r.cov.state(sh);
                         }
-                        if (!published && (*g_status == ST_OK || *g_status == ST_FAIL) && g_st.sha_exits > 0) {
+                        if (!published && (*g_status == ST_OK || *g_status == ST_FAIL) && (g_st.sha_exits > 0 || (g_st.aes_exits > 0 && (verdict & 1)))) {
                                 published = true;
                                 published_at = steps;
                                 for (int i = 0; i < n; i++)
@@ -510,6 +541,7 @@ struct FipsRaceSim : Sim {
                         }
                 }
                 g_sched_hook = nullptr;
+                g_generic_hook = nullptr;
                 g_kernel_hook = nullptr;
                 arm_interposers(false);
                 g_st.sched = nullptr;
@@ -520,16 +552,19 @@ struct FipsRaceSim : Sim {
                 r.cov.hit(strfmt("probe_policy_%d", policy));
                 // abandon unfinished coroutines safely: nothing to unwind (tasks hold no resources)
                 // ---- oracle over the recorded history
-                std::string tag = strfmt("asm/%s", real ? "real" : "injected");
+                std::string tag = strfmt("%s/%s", generic ? "generic_c11" : "asm", real ? "real" : "injected");
+                r.cov.hit(generic ? "probe_impl_self_tests_generic_c" : "probe_impl_asm_self_tests");
                 if (cap_hit) {
                         e.violation("C17", "liveness", "C17/liveness/" + tag,
                                     strfmt("%d task(s) still not finished after %llu scheduling steps (%s; fair round-robin fallback in effect)",
                                            (int) sched.runnable().size(), (unsigned long long) steps, published ? "verdict was published" : "verdict never published"));
                 }
-                if (g_st.aes_entries != 1 || g_st.sha_entries != 1)
+                // AES tests exactly once; SHA tests exactly once too, except that an implementation may skip them after an AES failure
+                bool sha_may_skip = (verdict & 1) != 0;
+                if (g_st.aes_entries != 1 || g_st.sha_entries > 1 || (g_st.sha_entries == 0 && !sha_may_skip))
                         e.violation("C17", "run-count", "C17/run-count/" + tag,
-                                    strfmt("self-tests entered %d (AES) and %d (SHA) times with %d tasks, expected exactly once each", g_st.aes_entries, g_st.sha_entries, n));
-                if (g_st.aes_task != g_st.sha_task)
+                                    strfmt("self-tests entered %d (AES) and %d (SHA) times with %d tasks, expected exactly once", g_st.aes_entries, g_st.sha_entries, n));
+                if (g_st.sha_entries && g_st.aes_task != g_st.sha_task)
                         e.violation("C17", "two-runners", "C17/two-runners/" + tag, "AES and SHA self-tests were run by different tasks");
                 int runner = g_st.aes_task;
                 // window: [aes enter, sha exit] of the runner
@@ -537,7 +572,7 @@ struct FipsRaceSim : Sim {
                 for (auto &ev : evs) {
                         if (ev.kind == EV_AES_ENTER && win_lo == ~0ull)
                                 win_lo = ev.seq;
-                        if (ev.kind == EV_SHA_EXIT)
+                        if (ev.kind == EV_SHA_EXIT || (ev.kind == EV_AES_EXIT && g_st.sha_entries == 0))
                                 win_hi = done_seq = ev.seq;
                 }
                 int expect_rc = verdict == 0 ? 0 : ISAL_CRYPTO_ERR_SELF_TEST;
@@ -587,6 +622,8 @@ struct FipsRaceSim : Sim {
                         r.cov.hit(runner == 0 ? "probe_runner_is_task0" : "probe_runner_is_other_task");
                 (void) published_at;
                 // return the process to NOT_RUN for the next run
+                *g_status = ST_NOT_DONE;
+#undef g_status
                 *g_status = ST_NOT_DONE;
         }
 };
